@@ -2042,3 +2042,412 @@ Proof.
   - apply SY_handle_votes.
   - apply SY_handle_votes.
 Qed.
+
+(** ** Histories without replayed headers *)
+Definition plain_op (o : mop) : bool :=
+  match o with
+  | MK (XOp o') => not_replay o'
+  | MK _ => false
+  | _ => true
+  end.
+
+Lemma plain_no_restart ops : forallb plain_op ops = true -> forallb no_restart ops = true.
+Proof.
+  induction ops as [|o ops IH]; cbn [forallb]; [reflexivity|]. intros H. apply andb_true_iff in H as [A B].
+  rewrite (IH B), andb_true_r. destruct o as [[o'| |]| | |]; try reflexivity; discriminate.
+Qed.
+
+Lemma mk_step_sync s o s1 r io :
+  auth_state (ms_k s) -> not_replay o = true -> mstep s (MK (XOp o)) = Ok (s1, r, io) ->
+  auth_state (ms_k s1) /\
+  exists new, st_ev (ms_k s1) = st_ev (ms_k s) ++ new /\ TR3 (views (ms_k s)) (views (ms_k s1)) new /\
+              SY3 (views (ms_k s)) (views (ms_k s1)) new /\ ms_m s1 = fold_left mgr_step new (ms_m s).
+Proof.
+  intros Ha Hn Hs. destruct (mk_step_facts _ _ _ _ _ Hs) as (new&He&H3&Hm&_).
+  revert Hs. cbn [mstep xstep is_restart_x]. unfold bind. destruct (step (ms_k s) o) as [[k' r1]|] eqn:Hst; [|discriminate].
+  intros E; inversion E; subst. cbn [ms_k ms_m] in *.
+  split; [eapply auth_step; eassumption|].
+  destruct (SY_step _ _ _ _ Ha Hn Hst) as (new2&He2&H2).
+  assert (new2 = new) by (rewrite He in He2; apply app_inv_head in He2; symmetry; exact He2). subst new2.
+  exists new. split; [exact He|]. split; [exact H3|]. split; [exact H2|exact Hm].
+Qed.
+
+(** ** Gossip: the three slots hold the kernel's views *)
+Definition GC (s : mstate) : Prop :=
+  forall k, is_slot k -> go_v (gslot (m_g (ms_m s)) k) = get3 (views (ms_k s)) k.
+
+Lemma go_v_mark_sent g k : go_v (gslot (g_mark_sent g) k) = go_v (gslot g k).
+Proof.
+  unfold gslot, g_mark_sent. cbn [gm_vot gm_com gm_nxt].
+  destruct (k =? ViewIDVoting); [|destruct (k =? ViewIDCommitting)];
+    match goal with |- context [if ?c then _ else _] => destruct c end; reflexivity.
+Qed.
+
+Lemma gc_run : forall ops s s' ios,
+  forallb plain_op ops = true -> mrun s ops = Ok (s', ios) ->
+  auth_state (ms_k s) -> GC s -> auth_state (ms_k s') /\ GC s'.
+Proof.
+  induction ops as [|o rest IH]; intros s s' ios Hall; cbn [mrun].
+  - intros E; inversion E; subst. auto.
+  - cbn [forallb] in Hall. apply andb_true_iff in Hall as [Ho Hr].
+    destruct (mstep s o) as [[[s1 r] io]|] eqn:Hs; [|discriminate].
+    destruct (mrun s1 rest) as [[s2 ios2]|] eqn:Hm; [|discriminate].
+    intros E; inversion E; subst. intros Ha HG.
+    apply (IH s1 s' ios2 Hr Hm).
+    + destruct o as [[o| |]|h0 r0| |]; cbn [plain_op] in Ho; try discriminate.
+      * apply (mk_step_sync _ _ _ _ _ Ha Ho Hs).
+      * revert Hs. cbn [mstep]. unfold bind. destruct (find_view _ _ _) as [[vid st]|]; [|discriminate].
+        destruct (st =? ViewFound); [intros E1; inversion E1; subst; exact Ha|].
+        destruct (st =? ViewBeforeCommitting); [|discriminate].
+        destruct (hdr_get _ _) as [[x cp]|]; [intros E1; inversion E1; subst; exact Ha|discriminate].
+      * revert Hs. cbn [mstep]. destruct (sm_output _) as [[[vv jv] sv]|]; intros E1; inversion E1; subst; exact Ha.
+      * revert Hs. cbn [mstep]. destruct (g_output _) as [[[[c v] n] nl]|]; intros E1; inversion E1; subst; exact Ha.
+    + destruct o as [[o| |]|h0 r0| |]; cbn [plain_op] in Ho; try discriminate.
+      * destruct (mk_step_sync _ _ _ _ _ Ha Ho Hs) as (_&new&He&H3&HY&Hm1).
+        intros k Hk. rewrite Hm1, (fold_mgr_gslot k Hk). cbn [go_v]. rewrite (HG k Hk). apply HY. exact Hk.
+      * revert Hs. cbn [mstep]. unfold bind. destruct (find_view _ _ _) as [[vid st]|]; [|discriminate].
+        destruct (st =? ViewFound); [intros E1; inversion E1; subst; exact HG|].
+        destruct (st =? ViewBeforeCommitting); [|discriminate].
+        destruct (hdr_get _ _) as [[x cp]|]; [intros E1; inversion E1; subst; exact HG|discriminate].
+      * revert Hs. cbn [mstep]. destruct (sm_output _) as [[[vv jv] sv]|]; intros E1; inversion E1; subst; exact HG.
+      * revert Hs. cbn [mstep]. destruct (g_output _) as [[[[c v] n] nl]|]; intros E1; inversion E1; subst; [|exact HG].
+        intros k Hk. cbn [ms_m ms_k m_g]. rewrite go_v_mark_sent. apply HG. exact Hk.
+Qed.
+
+Lemma GC_init ih ivs : GC (ms_init ih ivs).
+Proof.
+  intros k Hk. unfold ms_init. cbn [ms_m ms_k]. rewrite (fold_mgr_gslot k Hk). cbn [go_v].
+  destruct Hk as [->|[->| ->]]; reflexivity.
+Qed.
+
+Lemma g_output_none g : g_output g = None ->
+  go_has_been_sent (gm_com g) = true /\ go_has_been_sent (gm_vot g) = true /\ go_has_been_sent (gm_nxt g) = true /\
+  gm_nil g = None.
+Proof.
+  unfold g_output.
+  destruct (go_has_been_sent (gm_com g)); destruct (go_has_been_sent (gm_vot g)); destruct (go_has_been_sent (gm_nxt g));
+    destruct (gm_nil g); intros E; try discriminate; repeat split.
+Qed.
+
+Theorem gossip_current_after_empty_read ih ivs ops s' ios s'' c :
+  forallb plain_op ops = true -> mrun (ms_init ih ivs) ops = Ok (s', ios) ->
+  mstep s' MGRead = Ok (s'', c, IOGEmpty) ->
+  gm_nil (m_g (ms_m s'')) = None /\
+  forall k, is_slot k ->
+    go_has_been_sent (gslot (m_g (ms_m s'')) k) = true /\
+    go_v (gslot (m_g (ms_m s'')) k) = get_view (ms_k s'') k.
+Proof.
+  intros Hall Hrun Hrd.
+  destruct (gc_run _ _ _ _ Hall Hrun (auth_init ih ivs) (GC_init ih ivs)) as [_ HG].
+  revert Hrd. cbn [mstep]. destruct (g_output _) as [[[[c0 v] n] nl]|] eqn:Ho; intros E; inversion E; subst.
+  destruct (g_output_none _ Ho) as (S1&S2&S3&S4). split; [exact S4|].
+  intros k Hk. split; [|rewrite get_view_get3; apply HG; exact Hk].
+  destruct Hk as [->|[->| ->]]; assumption.
+Qed.
+
+(** every change of a kernel view comes with a version bump (or a later (height, round)) *)
+Lemma last_mark_cases k : forall new d,
+  last_mark k new d = d \/ exists vid, slot vid = k /\ In (EvMark vid (last_mark k new d)) new.
+Proof.
+  induction new as [|e new IH]; intros d; cbn [last_mark]; [left; reflexivity|].
+  destruct e as [vid0 m0|m0|m0|h0];
+    try (destruct (IH d) as [A|(vid&B1&B2)]; [left; exact A|right; exists vid; split; [exact B1|right; exact B2]]).
+  destruct (N.eqb_spec (slot vid0) k) as [Es|Es].
+  - right. destruct (IH m0) as [A|(vid&B1&B2)].
+    + exists vid0. split; [exact Es|left; rewrite A; reflexivity].
+    + exists vid. split; [exact B1|right; exact B2].
+  - destruct (IH d) as [A|(vid&B1&B2)]; [left; exact A|right; exists vid; split; [exact B1|right; exact B2]].
+Qed.
+
+Theorem kernel_version_bumped_on_change s o s' res :
+  auth_state s -> not_replay o = true -> step s o = Ok (s', res) ->
+  exists new, st_ev s' = st_ev s ++ new /\
+    (Forall ev_ok new -> kinv (views s) ->
+     forall k, is_slot k -> get_view s' k = get_view s k \/ vlt (get_view s k) (get_view s' k)).
+Proof.
+  intros Ha Hn Hs. destruct (TR_step _ _ _ _ Hs) as (new&He&H3). destruct (SY_step _ _ _ _ Ha Hn Hs) as (new2&He2&HY).
+  assert (new2 = new) by (rewrite He in He2; apply app_inv_head in He2; symmetry; exact He2). subst new2.
+  exists new. split; [exact He|]. intros Hok Hk k Hslot.
+  destruct (H3 Hok Hk) as (K1&S&P&M&Nn&O). rewrite Forall_forall in M.
+  rewrite !get_view_get3, <- (HY k Hslot).
+  destruct (last_mark_cases k new (get3 (views s) k)) as [E|(vid&Es&Hin)]; [left; exact E|right].
+  specialize (M _ Hin). cbn [ev_M] in M. destruct M as [M1 M2].
+  assert (Eg : get3 (views s) vid = get3 (views s) k) by (apply get3_slot; rewrite Es; symmetry; apply slot_of_slot; exact Hslot).
+  rewrite Eg in M1.
+  destruct (M1 _ (vle_refl _)) as [L|[Sp _]]; [left; exact L|].
+  right. split; [exact Sp|]. apply M2; [apply past_get3; exact Hk|exact Sp].
+Qed.
+
+(** ** State machine: the kept view is the kernel's view of the entered round *)
+Definition sm_hit (h r : N) (e : mev) : option view :=
+  match e with
+  | EvMark vid m =>
+      if ((vid =? ViewIDVoting) || (vid =? ViewIDCommitting)) && (h =? v_h m) && (r =? v_r m) then Some m else None
+  | _ => None
+  end.
+
+Definition lm_hit (k : N) (e : mev) : option view :=
+  match e with
+  | EvMark vid m => if slot vid =? k then Some m else None
+  | _ => None
+  end.
+
+Fixpoint track (f : mev -> option view) (evs : list mev) (x : view) : view :=
+  match evs with
+  | [] => x
+  | e :: rest => track f rest (match f e with Some y => y | None => x end)
+  end.
+
+Lemma last_mark_track k : forall evs d, last_mark k evs d = track (lm_hit k) evs d.
+Proof.
+  induction evs as [|e evs IH]; intros d; [reflexivity|].
+  destruct e as [vid m| | |]; cbn [last_mark track lm_hit]; try apply IH.
+  destruct (slot vid =? k); apply IH.
+Qed.
+
+Lemma mgr_step_out m e :
+  smm_out (m_sm (mgr_step m e)) =
+  match sm_hit (smm_h (m_sm m)) (smm_r (m_sm m)) e with Some y => y | None => smm_out (m_sm m) end.
+Proof.
+  destruct m as [sm g cm]. destruct e as [vid v|v|v|h]; cbn [mgr_step sm_hit m_sm]; try reflexivity.
+  - destruct (vid =? ViewIDVoting); [|destruct (vid =? ViewIDCommitting)]; cbn [orb andb m_sm].
+    + destruct ((smm_h sm =? v_h v) && (smm_r sm =? v_r v)); reflexivity.
+    + destruct ((smm_h sm =? v_h v) && (smm_r sm =? v_r v)); [reflexivity|].
+      destruct ((smm_h sm <? v_h v) || _); reflexivity.
+    + reflexivity.
+  - destruct (_ && _); reflexivity.
+Qed.
+
+Lemma fold_mgr_sm_track new : forall m,
+  smm_out (m_sm (fold_left mgr_step new m)) = track (sm_hit (smm_h (m_sm m)) (smm_r (m_sm m))) new (smm_out (m_sm m)).
+Proof.
+  induction new as [|e new IH]; intros m; cbn [fold_left track]; [reflexivity|].
+  rewrite IH. destruct (mgr_step_sm_fixed m e) as (Fh&Fr&_). rewrite Fh, Fr, mgr_step_out. reflexivity.
+Qed.
+
+Lemma track_last f : forall new x,
+  (Forall (fun e => f e = None) new /\ track f new x = x) \/
+  (exists l1 e l2 y, new = l1 ++ e :: l2 /\ f e = Some y /\ Forall (fun e' => f e' = None) l2 /\ track f new x = y).
+Proof.
+  induction new as [|e new IH]; intros x; cbn [track]; [left; split; [constructor|reflexivity]|].
+  destruct (IH (match f e with Some y => y | None => x end)) as [[A B]|(l1&e0&l2&y&E&Hy&Hn&Ht)].
+  - destruct (f e) as [y|] eqn:Hf.
+    + right. exists [], e, new, y. repeat split; assumption.
+    + left. split; [constructor; assumption|exact B].
+  - right. exists (e :: l1), e0, l2, y. subst new. repeat split; assumption.
+Qed.
+
+Lemma app_cons_tri {A} (l1 : list A) : forall a l2 l1' b l2',
+  l1 ++ a :: l2 = l1' ++ b :: l2' -> (l1 = l1' /\ a = b /\ l2 = l2') \/ In a l2' \/ In b l2.
+Proof.
+  induction l1 as [|x l1 IH]; intros a l2 l1' b l2' E; destruct l1' as [|y l1']; cbn [app] in E; inversion E; subst.
+  - left. repeat split.
+  - right. right. apply in_or_app. right. left. reflexivity.
+  - right. left. apply in_or_app. right. left. reflexivity.
+  - destruct (IH _ _ _ _ _ H1) as [(A1&A2&A3)|[B|C]]; [left; subst; repeat split|right; left; exact B|right; right; exact C].
+Qed.
+
+Lemma sm_hit_some h r e y : sm_hit h r e = Some y ->
+  exists vid, e = EvMark vid y /\ v_h y = h /\ v_r y = r.
+Proof.
+  destruct e as [vid m| | |]; cbn [sm_hit]; try discriminate.
+  destruct (_ && _) eqn:E; [|discriminate]. intros X; inversion X; subst.
+  apply andb_true_iff in E as [E Er]. apply andb_true_iff in E as [_ Eh]. apply N.eqb_eq in Eh, Er.
+  exists vid. repeat split; congruence.
+Qed.
+
+Lemma lm_hit_some k e y : lm_hit k e = Some y -> exists vid, e = EvMark vid y /\ slot vid = k.
+Proof.
+  destruct e as [vid m| | |]; cbn [lm_hit]; try discriminate.
+  destruct (N.eqb_spec (slot vid) k); [|discriminate]. intros X; inversion X; subst. exists vid. split; reflexivity.
+Qed.
+
+Lemma lm_hit_sm_hit k h r e y : k = ViewIDVoting \/ k = ViewIDCommitting ->
+  lm_hit k e = Some y -> v_h y = h -> v_r y = r -> sm_hit h r e = Some y.
+Proof.
+  intros Hk Hl Hh Hr. destruct (lm_hit_some _ _ _ Hl) as (vid&E&Es). subst e. cbn [sm_hit].
+  rewrite Hh, Hr, !N.eqb_refl, !andb_true_r.
+  unfold slot in Es. destruct (vid =? ViewIDVoting); [reflexivity|]. destruct (vid =? ViewIDCommitting); [reflexivity|].
+  destruct Hk as [->| ->]; discriminate.
+Qed.
+
+Definition LI (sm : smm) (t : vs3) : Prop :=
+  smm_last sm = 0 \/ exists b, smm_last sm = v_ver b /\ v_h b = smm_h sm /\ v_r b = smm_r sm /\ past b t.
+
+Definition CI (sm : smm) (t : vs3) : Prop :=
+  forall vid, vid = ViewIDVoting \/ vid = ViewIDCommitting ->
+  v_h (get3 t vid) = smm_h sm -> v_r (get3 t vid) = smm_r sm -> smm_last sm < v_ver (get3 t vid) ->
+  smm_out sm = get3 t vid.
+
+Lemma is_slot_vc vid : vid = ViewIDVoting \/ vid = ViewIDCommitting -> is_slot vid.
+Proof. intros [->| ->]; [left|right; left]; reflexivity. Qed.
+
+Lemma sm_sync_events t t' new h r last out vid :
+  Forall ev_ok new -> kinv t -> TR3 t t' new -> SY3 t t' new ->
+  vid = ViewIDVoting \/ vid = ViewIDCommitting ->
+  (forall vid0, vid0 = ViewIDVoting \/ vid0 = ViewIDCommitting ->
+     v_h (get3 t vid0) = h -> v_r (get3 t vid0) = r -> last < v_ver (get3 t vid0) -> out = get3 t vid0) ->
+  v_h (get3 t' vid) = h -> v_r (get3 t' vid) = r -> last < v_ver (get3 t' vid) ->
+  track (sm_hit h r) new out = get3 t' vid.
+Proof.
+  intros Hok Hk H3 HY Hvid Hpre Hh Hr Hlt.
+  destruct (H3 Hok Hk) as (K1&S&P&M&Nn&O). rewrite Forall_forall in M, Nn.
+  pose proof (HY vid (is_slot_vc vid Hvid)) as HK. rewrite last_mark_track in HK.
+  destruct (track_last (sm_hit h r) new out) as [[NoHit Eo]|(l1&e&l2&y&En&Hy&NoHit2&Eo)];
+  destruct (track_last (lm_hit vid) new (get3 t vid)) as [[NoM Ek]|(l1'&e'&l2'&y'&En'&Hy'&NoM2&Ek)].
+  - rewrite Eo. rewrite Ek in HK. rewrite <- HK in *. apply Hpre; assumption.
+  - exfalso. rewrite Ek in HK. rewrite <- HK in *.
+    pose proof (lm_hit_sm_hit vid h r e' y' Hvid Hy' Hh Hr) as Hs.
+    rewrite Forall_forall in NoHit. rewrite (NoHit e') in Hs; [discriminate|]. rewrite En'. apply in_or_app. right. left. reflexivity.
+  - exfalso. rewrite Ek in HK. rewrite <- HK in *.
+    destruct (sm_hit_some _ _ _ _ Hy) as (vid0&Ee&Yh&Yr). subst e.
+    assert (Hin : In (EvMark vid0 y) new) by (rewrite En; apply in_or_app; right; left; reflexivity).
+    pose proof (proj2 (Nn _ Hin)) as Np. pose proof (proj2 (M _ Hin)) as Ms.
+    assert (Sp : samepos y (get3 t vid)) by (split; congruence).
+    assert (Q1 : vq y (get3 t' vid)) by (apply past_below_get3; [exact Np|rewrite <- HK; split; congruence]).
+    assert (Q2 : vqs (get3 t vid) y) by (apply Ms; [apply past_get3; exact Hk|split; congruence]).
+    rewrite <- HK in Q1. destruct Q1 as [Q1 _]. destruct Q2 as [Q2 _]. lia.
+  - rewrite Eo. rewrite Ek in HK. rewrite <- HK in *.
+    destruct (sm_hit_some _ _ _ _ Hy) as (vid0&Ee&Yh&Yr). destruct (lm_hit_some _ _ _ Hy') as (vid1&Ee'&Es'). subst e e'.
+    assert (Hin : In (EvMark vid0 y) new) by (rewrite En; apply in_or_app; right; left; reflexivity).
+    rewrite En in En'. destruct (app_cons_tri _ _ _ _ _ _ En') as [(_&Eab&_)|[Hab|Hba]].
+    + inversion Eab; reflexivity.
+    + exfalso. assert (En2 : new = l1' ++ EvMark vid1 y' :: l2') by (rewrite En; exact En').
+      rewrite En2 in O. apply ord_pairs_app_inv in O as (_&O2&_). cbn [ord_pairs] in O2. destruct O2 as [O2 _].
+      rewrite Forall_forall in O2. specialize (O2 _ Hab). cbn [ev_rel] in O2. destruct O2 as [_ O2].
+      assert (Q2 : vqs y' y) by (apply O2; split; congruence).
+      pose proof (proj2 (Nn _ Hin)) as Np.
+      assert (Q1 : vq y (get3 t' vid)) by (apply past_below_get3; [exact Np|rewrite <- HK; split; congruence]).
+      rewrite <- HK in Q1. destruct Q1 as [Q1 _]. destruct Q2 as [Q2 _]. lia.
+    + exfalso. rewrite Forall_forall in NoHit2. pose proof (NoHit2 _ Hba) as X.
+      rewrite (lm_hit_sm_hit vid h r (EvMark vid1 y') y' Hvid Hy' Hh Hr) in X. discriminate.
+Qed.
+
+Definition SC (s : mstate) : Prop :=
+  SG s /\ LI (sm_of s) (views (ms_k s)) /\ CI (sm_of s) (views (ms_k s)) /\ auth_state (ms_k s).
+
+Lemma find_view_before pos h r vid st :
+  find_view pos h r = Ok (vid, st) -> st = ViewBeforeCommitting ->
+  h <> kpos_Voting_Height pos /\ ~ (h = kpos_Committing_Height pos /\ r = kpos_Committing_Round pos).
+Proof.
+  unfold find_view. cbv zeta. MirrorChain.break_ifs; intros E; inversion E; subst; intros Hst;
+    try (exfalso; revert Hst; unfold ViewFound, ViewOrphaned, ViewFuture, ViewBeforeCommitting; discriminate).
+  all: repeat match goal with
+           | X : (_ =? _) = true |- _ => apply N.eqb_eq in X
+           | X : (_ =? _) = false |- _ => apply N.eqb_neq in X
+           | X : (_ <? _) = true |- _ => apply N.ltb_lt in X
+           | X : (_ <? _) = false |- _ => apply N.ltb_ge in X
+           end.
+  all: split; [assumption|intros [A B]; lia].
+Qed.
+
+Lemma enter_found_pos k h r vid st :
+  kinv (views k) -> find_view (kpos_of k) h r = Ok (vid, st) -> st = ViewFound ->
+  v_h (get_view k vid) = h /\ v_r (get_view k vid) = r.
+Proof.
+  intros Hk Hfv Hst. unfold views in Hk. destruct Hk as (K1&K2&K3&K4&K5&K6&K7&K8).
+  destruct (MirrorChain.find_view_found _ _ _ _ _ Hfv Hst) as [(A&B&C)|[(A&B&C)|(A&B&C&D)]]; cbn in B, C; subst vid.
+  - unfold get_view. cbn. split; congruence.
+  - unfold get_view. cbn. split; [congruence|]. rewrite C. unfold wrap32. rewrite K2. symmetry. apply N.mod_small. lia.
+  - unfold get_view. cbn. split; congruence.
+Qed.
+
+Lemma sc_run : forall ops s s' ios,
+  forallb plain_op ops = true -> mrun s ops = Ok (s', ios) ->
+  Forall ev_ok (st_ev (ms_k s')) -> SC s -> SC s'.
+Proof.
+  induction ops as [|o rest IH]; intros s s' ios Hall; cbn [mrun].
+  - intros E; inversion E; subst. auto.
+  - cbn [forallb] in Hall. apply andb_true_iff in Hall as [Ho Hr].
+    destruct (mstep s o) as [[[s1 r] io]|] eqn:Hs; [|discriminate].
+    destruct (mrun s1 rest) as [[s2 ios2]|] eqn:Hm; [|discriminate].
+    intros E; inversion E; subst. intros Hok (HSG&HLI&HCI&Ha).
+    destruct (mrun_ext _ _ _ _ (plain_no_restart _ Hr) Hm) as (n2&E2). pose proof Hok as Hfin. rewrite E2 in Hok. apply ok_prefix in Hok as [Hok1 Hok2].
+    apply (IH s1 s' ios2 Hr Hm Hfin).
+    assert (HSG1 : SG s1).
+    { apply (sg_run [o] s s1 [io]); [cbn [forallb]; rewrite andb_true_r; destruct o as [[o'| |]| | |]; try reflexivity; discriminate
+                                    |cbn [mrun]; rewrite Hs; reflexivity|exact Hok1|exact HSG]. }
+    split; [exact HSG1|]. destruct HSG as [Hkinv Hout]. unfold sm_of in *.
+    destruct o as [[o| |]|h0 r0| |]; cbn [plain_op] in Ho; try discriminate.
+    + destruct (mk_step_sync _ _ _ _ _ Ha Ho Hs) as (Ha1&new&He&H3&HY&Hm1).
+      rewrite He in Hok1. apply ok_prefix in Hok1 as [Hok0 Hoknew].
+      destruct (H3 Hoknew Hkinv) as (K1&S&P&M&Nn&O).
+      destruct (fold_mgr_step_sm_fixed new (ms_m s)) as (Fh&Fr&Fl).
+      split; [|split; [|exact Ha1]].
+      * unfold LI. rewrite Hm1, Fh, Fr, Fl. destruct HLI as [L0|(b&B1&B2&B3&B4)]; [left; exact L0|].
+        right. exists b. split; [exact B1|]. split; [exact B2|]. split; [exact B3|]. apply P, B4.
+      * unfold CI. rewrite Hm1, Fh, Fr, Fl, fold_mgr_sm_track. intros vid Hvid Vh Vr Vlt.
+        exact (sm_sync_events (views (ms_k s)) (views (ms_k s1)) new _ _ _ _ vid Hoknew Hkinv H3 HY Hvid HCI Vh Vr Vlt).
+    + revert Hs. cbn [mstep]. unfold bind. destruct (find_view _ _ _) as [[vid0 st]|] eqn:Hfv; [|discriminate].
+      destruct (st =? ViewFound) eqn:Hst.
+      * intros E1; inversion E1; subst. cbn [ms_m ms_k m_sm]. apply N.eqb_eq in Hst.
+        destruct (enter_found_pos _ _ _ _ _ Hkinv Hfv Hst) as [Ph Pr]. rewrite get_view_get3 in *.
+        split; [|split; [|exact Ha]].
+        -- right. exists (get3 (views (ms_k s)) vid0). cbn [smm_last smm_h smm_r].
+           split; [reflexivity|]. split; [exact Ph|]. split; [exact Pr|]. apply past_get3. exact Hkinv.
+        -- intros vid Hvid. cbn [smm_last smm_h smm_r smm_out]. intros Vh Vr Vlt. exfalso.
+           assert (Q : vq (get3 (views (ms_k s)) vid) (get3 (views (ms_k s)) vid0)).
+           { apply past_below_get3; [apply past_get3; exact Hkinv|split; congruence]. }
+           destruct Q as [Q _]. lia.
+      * destruct (st =? ViewBeforeCommitting) eqn:Hst2; [|discriminate].
+        destruct (hdr_get _ _) as [[x cp]|]; [|discriminate]. intros E1; inversion E1; subst. cbn [ms_m ms_k m_sm].
+        apply N.eqb_eq in Hst2. destruct (find_view_before _ _ _ _ _ Hfv Hst2) as [NV NC]. cbn in NV, NC.
+        split; [left; reflexivity|split; [|exact Ha]].
+        intros vid Hvid. cbn [smm_last smm_h smm_r smm_out]. intros Vh Vr _. exfalso.
+        destruct Hvid as [->| ->]; unfold get3, views in Vh, Vr; cbn in Vh, Vr; [apply NV; congruence|apply NC; split; congruence].
+    + revert Hs. cbn [mstep]. destruct (sm_output _) as [[[vv jv] sv]|] eqn:Hso; intros E1; inversion E1; subst;
+        [|split; [exact HLI|split; [exact HCI|exact Ha]]].
+      cbn [ms_m ms_k m_sm]. destruct (sm_output_spec _ _ _ _ Hso) as [Sv Sn]. destruct (sm_output_src _ _ _ _ Hso) as [Ov _].
+      split; [|split; [|exact Ha]].
+      * unfold LI, sm_mark_sent. cbn [smm_last smm_h smm_r]. destruct vv as [v|].
+        -- destruct (Sv v eq_refl) as (Vh&Vr&Vlt&Vsv). pose proof (Ov v eq_refl) as Vo. subst v.
+           right. exists (smm_out (m_sm (ms_m s))). split; [exact Vsv|]. split; [exact Vh|]. split; [exact Vr|exact Hout].
+        -- rewrite (Sn eq_refl). exact HLI.
+      * unfold CI, sm_mark_sent. cbn [smm_last smm_h smm_r smm_out]. intros vid Hvid Vh Vr Vlt. destruct vv as [v|].
+        -- destruct (Sv v eq_refl) as (Oh&Or&Olt&Osv). pose proof (Ov v eq_refl) as Vo. subst v.
+           apply (HCI vid Hvid Vh Vr). lia.
+        -- rewrite (Sn eq_refl) in Vlt. apply (HCI vid Hvid Vh Vr Vlt).
+    + revert Hs. cbn [mstep]. destruct (g_output _) as [[[[c v] n] nl]|]; intros E1; inversion E1; subst;
+        split; [exact HLI|split; [exact HCI|exact Ha]|exact HLI|split; [exact HCI|exact Ha]].
+Qed.
+
+Lemma SC_init ih ivs : 1 <= ih -> ih < two64 -> SC (ms_init ih ivs).
+Proof.
+  intros H1 H2. split; [apply SG_init; assumption|].
+  destruct (fold_mgr_step_sm_fixed (st_ev (init_state ih ivs)) mgrs0) as (Fh&Fr&Fl).
+  unfold sm_of, ms_init. cbn [ms_m ms_k]. split; [|split; [|apply auth_init]].
+  - left. rewrite Fl. reflexivity.
+  - unfold CI. rewrite Fh, Fr, Fl. cbn [mgrs0 m_sm smm0 smm_h smm_r smm_last].
+    intros vid [->| ->]; unfold get3, views, init_state; cbn; intros Vh Vr Vlt; lia.
+Qed.
+
+Lemma sm_output_none m : sm_output m = None ->
+  v_h (smm_out m) = smm_h m -> v_r (smm_out m) = smm_r m -> smm_last m < v_ver (smm_out m) -> False.
+Proof.
+  unfold sm_output. intros Ho Hh Hr Hlt. rewrite Hh, Hr, !N.eqb_refl in Ho. cbn [andb] in Ho.
+  pose proof Hlt as Hlt'. apply N.ltb_lt in Hlt'. rewrite Hlt' in Ho.
+  assert (H0 : 0 <? v_ver (smm_out m) = true) by (apply N.ltb_lt; lia).
+  destruct (smm_jump m); rewrite H0 in Ho; discriminate.
+Qed.
+
+Theorem sm_current_after_empty_read ih ivs ops s' ios s'' c :
+  1 <= ih -> ih < two64 ->
+  forallb plain_op ops = true -> mrun (ms_init ih ivs) ops = Ok (s', ios) ->
+  Forall ev_ok (st_ev (ms_k s')) ->
+  mstep s' MSMRead = Ok (s'', c, IOEmpty) ->
+  forall vid, vid = ViewIDVoting \/ vid = ViewIDCommitting ->
+  v_h (get_view (ms_k s'') vid) = smm_h (sm_of s'') -> v_r (get_view (ms_k s'') vid) = smm_r (sm_of s'') ->
+  smm_last (sm_of s'') = v_ver (get_view (ms_k s'') vid).
+Proof.
+  intros H1 H2 Hall Hrun Hok Hrd.
+  destruct (sc_run _ _ _ _ Hall Hrun Hok (SC_init ih ivs H1 H2)) as ([Hk Hout]&HLI&HCI&_).
+  revert Hrd. cbn [mstep]. destruct (sm_output _) as [[[vv jv] sv]|] eqn:Ho; intros E; inversion E; subst.
+  intros vid Hvid Vh Vr. unfold sm_of in *. rewrite get_view_get3 in *.
+  assert (Hle : smm_last (m_sm (ms_m s'')) <= v_ver (get3 (views (ms_k s'')) vid)).
+  { destruct HLI as [L0|(b&B1&B2&B3&B4)]; [lia|]. rewrite B1.
+    apply (past_below_get3 _ _ vid B4). split; congruence. }
+  destruct (N.eq_dec (smm_last (m_sm (ms_m s''))) (v_ver (get3 (views (ms_k s'')) vid))) as [E1|Ne]; [exact E1|].
+  exfalso. assert (Hlt : smm_last (m_sm (ms_m s'')) < v_ver (get3 (views (ms_k s'')) vid)) by lia.
+  pose proof (HCI vid Hvid Vh Vr Hlt) as Eo.
+  apply (sm_output_none _ Ho); rewrite Eo; assumption.
+Qed.
